@@ -595,3 +595,65 @@ example : basisOf? "x" = some basisX ∧ siteNorm exA ≠ 0 ∧ RightCanon [exA,
   refine ⟨by rw [basis_dispatch, if_neg (by decide +kernel), if_pos (by decide +kernel)], by decide +kernel, exCanon, by decide +kernel, by decide +kernel⟩
 
 end Yaqs.Born
+
+/-!
+## The histogram of `measure_shots` does not depend on the order in which the workers finish
+
+`measure_shots` reads the results with `concurrent.futures.as_completed`, i.e. in whatever order the worker processes finish.
+The returned dict is the same map for every such order: the keys are pairwise different, each is a key one of the shots returned,
+and the count of `k` is the number of shots that returned `k`.  (The insertion order of the dict does depend on the completion
+order; the tie `tally` of harness/impl/C12.py compares it with the logged order.)
+-/
+namespace Yaqs.Born
+
+private theorem keys_bump (k : Nat) (cs : List (Nat × Nat)) :
+    (bump k cs).map Prod.fst = if k ∈ cs.map Prod.fst then cs.map Prod.fst else cs.map Prod.fst ++ [k] := by
+  induction cs with
+  | nil => simp [bump]
+  | cons p cs ih =>
+    obtain ⟨k', c⟩ := p
+    unfold bump
+    by_cases h : k' = k
+    · subst h; simp
+    · rw [if_neg h, List.map_cons, ih]
+      have hk : k ≠ k' := fun e => h e.symm
+      by_cases hm : k ∈ cs.map Prod.fst
+      · rw [if_pos hm, if_pos (by simp only [List.map_cons, List.mem_cons]; exact Or.inr hm)]; rfl
+      · rw [if_neg hm, if_neg (by simp only [List.map_cons, List.mem_cons]; exact fun h' => h'.elim hk hm)]; rfl
+
+private theorem keys_bump_nodup (k : Nat) (cs : List (Nat × Nat)) (h : (cs.map Prod.fst).Nodup) :
+    ((bump k cs).map Prod.fst).Nodup := by
+  rw [keys_bump]
+  split
+  · exact h
+  · rename_i hm
+    rw [List.nodup_append]
+    exact ⟨h, List.nodup_singleton k, fun a ha b hb => by
+      rw [List.mem_singleton] at hb; subst hb; exact fun e => hm (e ▸ ha)⟩
+
+private theorem keys_fold_nodup (ks : List Nat) (acc : List (Nat × Nat)) (h : (acc.map Prod.fst).Nodup) :
+    ((ks.foldl (fun acc k => bump k acc) acc).map Prod.fst).Nodup := by
+  induction ks generalizing acc with
+  | nil => exact h
+  | cons a ks ih => exact ih _ (keys_bump_nodup a acc h)
+
+/-- **the returned dict has pairwise different keys** (it is a map), for every list of shot results. -/
+theorem tally_keys_nodup (ks : List Nat) : ((tally ks).map Prod.fst).Nodup :=
+  keys_fold_nodup ks [] List.nodup_nil
+
+/-- **order independence**: two completion orders of the same shots (`ks'` a permutation of `ks`) give the same count for every
+    key, the same total, and each count is the number of shots that returned the key (`results.get(k, 0) = ks.count k`; a key no
+    shot returned has count 0). -/
+theorem tally_order_independent (ks ks' : List Nat) (h : ks.Perm ks') :
+    (∀ k, countOf k (tally ks) = countOf k (tally ks')) ∧ total (tally ks) = total (tally ks') ∧
+    (∀ k, countOf k (tally ks) = ks.count k) ∧ (∀ k, k ∉ ks → countOf k (tally ks) = 0) := by
+  refine ⟨fun k => ?_, ?_, fun k => countOf_tally k ks, fun k hk => ?_⟩
+  · rw [countOf_tally, countOf_tally, h.count_eq]
+  · rw [total_tally, total_tally, h.length_eq]
+  · rw [countOf_tally]; exact List.count_eq_zero_of_not_mem hk
+
+example : tally [3, 1, 3, 3, 0, 1] = [(3, 3), (1, 2), (0, 1)] ∧ tally [1, 0, 3, 3, 1, 3] = [(1, 2), (0, 1), (3, 3)] ∧
+    [3, 1, 3, 3, 0, 1].Perm [1, 0, 3, 3, 1, 3] := by
+  refine ⟨by decide, by decide, by decide⟩
+
+end Yaqs.Born
